@@ -684,3 +684,69 @@ func TestC20Interval(t *testing.T) {
 		st.Case(stats.Hash("ivm", zi, base.Unix(), n), n != 0, nil)
 	})
 }
+
+// Columns: batches of instants in mixed zones - fixed offsets and zones with daylight saving,
+// several values of one zone next to each other - appended one by one, in bulk (AppendArr)
+// and as one row of an Array column store, for every element, the calendar day (Date,
+// Date32) or the instant (DateTime) of that element in its own zone.
+func TestC20DateColumns(t *testing.T) {
+	zs := append(fixedZones(), dstZones()...)
+	st := stats.G()
+	rapid.Check(t, func(rt *rapid.T) {
+		n := rapid.IntRange(1, 6).Draw(rt, "batch")
+		var ts []time.Time
+		sameZone := rapid.Bool().Draw(rt, "one-zone")
+		z0 := rapid.IntRange(0, len(zs)-1).Draw(rt, "zone")
+		for i := 0; i < n; i++ {
+			zi := z0
+			if !sameZone {
+				zi = rapid.IntRange(0, len(zs)-1).Draw(rt, "zone")
+			}
+			// Date32 range; instants near midnight matter most (the offset decides the day)
+			y := rapid.IntRange(1971, 2100).Draw(rt, "year")
+			mo := rapid.IntRange(1, 12).Draw(rt, "month")
+			d := rapid.IntRange(1, 28).Draw(rt, "day")
+			sec := rapid.OneOf(rapid.IntRange(0, 7200), rapid.IntRange(79200, 86399), rapid.IntRange(0, 86399)).Draw(rt, "sec")
+			ts = append(ts, time.Date(y, time.Month(mo), d, 0, 0, sec, 0, zs[zi]))
+		}
+		wantDay := func(t time.Time) int64 { y, m, d := t.Date(); return daysFromCivil(y, int(m), d) }
+		var one, bulk proto.ColDate32
+		var d16one, d16bulk proto.ColDate
+		var dtOne, dtBulk proto.ColDateTime
+		for _, v := range ts {
+			one.Append(v)
+			d16one.Append(v)
+			dtOne.Append(v)
+		}
+		bulk.AppendArr(ts)
+		d16bulk.AppendArr(ts)
+		dtBulk.AppendArr(ts)
+		arr := proto.NewArrDate32()
+		arr.Append(ts)
+		arr16 := proto.NewArrDate()
+		arr16.Append(ts)
+		arrDT := proto.NewArrDateTime()
+		arrDT.Append(ts)
+		for i, v := range ts {
+			w := wantDay(v)
+			for name, got := range map[string]int64{"ColDate32.Append": int64(one[i]), "ColDate32.AppendArr": int64(bulk[i]), "Array(Date32) row": int64(proto.ToDate32(arr.Row(0)[i])),
+				"ColDate.Append": int64(d16one[i]), "ColDate.AppendArr": int64(d16bulk[i]), "Array(Date) row": int64(proto.ToDate(arr16.Row(0)[i]))} {
+				if got != w {
+					rt.Fatalf("%s: element %d of %v stored as day %d, its calendar day in its own zone is %d", name, i, ts, got, w)
+				}
+			}
+			for name, got := range map[string]int64{"ColDateTime.Append": dtOne.Row(i).Unix(), "ColDateTime.AppendArr": dtBulk.Row(i).Unix(), "Array(DateTime) row": arrDT.Row(0)[i].Unix()} {
+				if got != v.Unix() {
+					rt.Fatalf("%s: element %d of %v stored as %d, want %d", name, i, ts, got, v.Unix())
+				}
+			}
+		}
+		dst := z0 >= len(fixedZones())
+		st.Case(stats.Hash("datecols", fmt.Sprint(ts)), n > 1 && (dst || !sameZone), func() any {
+			return map[string]any{"kind": "date-columns", "batch": fmt.Sprint(ts)}
+		})
+		if dst && sameZone && n > 1 {
+			st.Label("date-batch:one-daylight-saving-zone")
+		}
+	})
+}
